@@ -47,8 +47,17 @@ THEOREMS = ["C08_checked_paths_total", "C08_unchecked_is_checked_plus_panic", "C
             "C08_factorial_truncation_refuted", "C08_comparison_nan_refuted"]
 # C08_comparison_nan_refuted is computed on the kernel's primitive binary64 floats: Print Assumptions lists the
 # primitive type and operations it uses (they are primitives of the kernel, not axioms of this development)
-ALLOWED_AXIOMS = ["float", "mul", "div", "eqb", "compare", "PrimFloat.float", "PrimFloat.mul", "PrimFloat.div",
-                  "PrimFloat.eqb", "PrimFloat.compare"]
+_PRIMS = ("PrimFloat.float PrimFloat.mul PrimFloat.div PrimFloat.eqb PrimFloat.compare PrimFloat.ldshiftexp PrimFloat.next_up "
+          "PrimFloat.of_uint63 PrimFloat.sqrt PrimFloat.sub PrimFloat.opp PrimFloat.ltb PrimFloat.leb PrimFloat.add PrimFloat.abs "
+          "PrimFloat.normfr_mantissa PrimFloat.next_down PrimFloat.frshiftexp PrimFloat.classify Leibniz.eqb "
+          "PrimInt63.compares PrimInt63.diveucl_21 PrimInt63.addmuldiv PrimInt63.addcarryc PrimInt63.tail0 PrimInt63.head0 "
+          "PrimInt63.subc PrimInt63.mulc PrimInt63.mods PrimInt63.lxor PrimInt63.ltsb PrimInt63.lesb PrimInt63.land PrimInt63.divs "
+          "PrimInt63.addc PrimInt63.sub PrimInt63.mul PrimInt63.mod PrimInt63.ltb PrimInt63.lsr PrimInt63.lsl PrimInt63.lor "
+          "PrimInt63.leb PrimInt63.int PrimInt63.eqb PrimInt63.div PrimInt63.asr PrimInt63.add PrimInt63.subcarryc "
+          "PrimInt63.diveucl PrimInt63.compare").split()
+# Print Assumptions lists the primitives a theorem uses by their short names; coqchk (thorough tier) lists every
+# primitive of the loaded PrimFloat/PrimInt63 libraries.  They are kernel primitives, allowed for this check only.
+ALLOWED_AXIOMS = ["float", "mul", "div", "eqb", "compare"] + _PRIMS
 
 CASE_TIMEOUT_MS = 15000
 
@@ -389,8 +398,9 @@ def stdlib_call(rng, sig):
     args = [pick(t) for t in types]
     if name in COUNT_RECURSIVE:
         # open finding C08-count-recursion-on-non-finite-argument (one instance is in the corpus); every further
-        # instance would only cost a watchdog period; huge finite counts are compute-bound by construction
-        args = [a if not (re.search(r"inf|NaN", a) or HUGE_LITERAL_RE.search(a)) else "3" for a in args]
+        # instance would only cost a watchdog period; counts of a thousand and more are compute-bound in the debug
+        # profile (str_repeat is quadratic: 55296 repetitions take minutes)
+        args = [a if not (re.search(r"inf|NaN|\d{4,}", a) or HUGE_LITERAL_RE.search(a)) else "3" for a in args]
     return "%s(%s)" % (name, ", ".join(args))
 
 
